@@ -12,6 +12,8 @@ mod loopback;
 mod c03;
 mod c04;
 mod c08;
+mod c09;
+mod nharness;
 mod c16;
 mod c17;
 mod c18;
@@ -108,6 +110,16 @@ fn scn_c02_f() -> Scenario {
     }
 }
 
+const RVS_N: &[(&str, &str)] = &[
+    ("tonic transport: Server, Channel, Reconnect, Buffer worker, GrpcTimeout, RecoverError, generated code, codecs", "real"),
+    ("hyper, h2, tower, axum router", "real"),
+    ("executor", "tokio current-thread runtime (FIFO run queue), select! seeded through Builder::rng_seed"),
+    ("clock", "tokio paused clock (simulated; jumps to the next timer when idle)"),
+    ("network", "simnet: in-memory byte streams; bytes per operation, stalls, back-pressure, kills drawn from the tape"),
+    ("connector / listener", "scripted SimConnector / channel-fed incoming stream"),
+    ("OS sockets, DNS, real time", "none"),
+];
+
 fn props() -> Vec<Property> {
     vec![
     Property {
@@ -192,6 +204,22 @@ fn props() -> Vec<Property> {
             "allocation is observed with a counting global allocator: no single allocation >= 1 MiB while refusing a declared length >= 1 MiB under a limit <= 64 KiB",
         ],
         required_probes: vec!["limit-exactly-hit", "declared-length-without-payload", "refused-without-payload", "allocation-watched", "oversized-candidate-not-first", "oversized-candidate-first", "encode-over-limit", "encode-within-limit"],
+    },
+    Property {
+        id: "C09",
+        title: "Deadlines: faithful grpc-timeout encoding and shortest-deadline enforcement",
+        scenarios: vec![
+            Scenario { name: "N-deadline", engine: "N", run: c09::run_deadline, quick: 12_000, thorough: 300_000, grid: 0, what: "real tonic Server (Server::timeout) + Channel (Endpoint::timeout) + Request::set_timeout over simnet on the paused clock; handler latency on a grid around D = min of the configured deadlines (D-50ms .. D+-us .. D+5s, never)" },
+            Scenario { name: "F-timeout-header", engine: "F", run: c09::run_header, quick: 60_000, thorough: 1_000_000, grid: 0, what: "what a foreign server peer receives as grpc-timeout for Request::set_timeout(d), durations biased to the unit-switch boundaries up to 99999999 hours" },
+            Scenario { name: "F-timeout-parse", engine: "F", run: c09::run_parse, quick: 40_000, thorough: 800_000, grid: c09::PARSE_GRID, what: "the server's grpc-timeout parser through hook H2: every unit x 1..8 digits x {all zeros, all nines, leading zeros, random} enumerated first, then malformed strings (9+ digits, no digits, no unit, wrong unit, signs, spaces, non-ASCII, random bytes)" },
+        ],
+        rule: "one run = one (caller timeout, server timeout, endpoint timeout, handler latency) tuple in virtual time, or one duration / header string; non-trivial = every run; distinct = distinct hash of structural tape decisions",
+        real_vs_stub: RVS_N.to_vec(),
+        assumptions: vec![
+            "guard band g = 2 ms around the deadline (tokio's timer wheel rounds up to 1 ms; the handler is polled before the sleep); the simulated network adds no virtual delay in this scenario",
+            "the grammar clauses (encoding, parsing) are pure functions of their input: sampled structurally through a foreign peer / hook H2, not decided",
+        ],
+        required_probes: vec!["finishes-before-deadline", "cut-off-at-deadline", "inside-guard-band", "unit-coarser-than-ns", "parse-conformant", "parse-malformed"],
     },
     Property {
         id: "C16",
